@@ -893,7 +893,7 @@ func TestCheck(t *testing.T) {
 
 	// the partition as the aggregators of a real server report it (wiring, cloud provider, both ingestion paths)
 	srng := r.Rand("c06-server")
-	nSrv := r.N(240, 12000)
+	nSrv := r.N(240, 6000)
 	for i := 0; i < nSrv; i++ {
 		sc := genSrvCase(srng)
 		r.Case("server case %d: workers=%d cloud=%v static=%q rounds=%d backend-script=%q", i, sc.Workers, sc.Cloud, sc.Static, len(sc.Rounds), sc.Script)
